@@ -9,28 +9,30 @@ package main
 import "strings"
 
 var explainAddenda = map[string]string{
-	"C01": "(attr-fresh) every successful return of GetAttr follows a backend stat made by that call, or lies on the IsValid() edge of a record from AttrCache.Get that can never have validUntil set (the branch is dead): the fill `Lstat ... Put` is not atomic with a concurrent WRITE's invalidation, so a served cache hit could report a stale size and a wrong eof.",
+	"C01": "(read-size, also under C29) no origin of the length of the buffer READ hands to the backend ReadAt is a field of a remembered NFSAttrs record; (attr-fresh) every successful return of GetAttr follows a backend stat made by that call, or lies on the IsValid() edge of a record from AttrCache.Get that can never have validUntil set (the branch is dead): the fill `Lstat ... Put` is not atomic with a concurrent WRITE's invalidation, so a served cache hit could report a stale size and a wrong eof.",
 	"C02": "(tree-scan) both InvalidateTree implementations delete inside a loop over the cache map whose header dominates every return, guarded by the membership tests only; (inval, subtree) after a Rename the whole cached subtree at or below the old and the new name is dropped from both caches; (hit-rebinds, shared with C05) when a path already has a handle, FileHandleMap.Allocate re-binds the table entry to the node just looked up on every path from the hit edge to the return — the node behind a handle caches the object's type and handles survive REMOVE.",
 	"C03": "(rollback-own) a backend Remove of the created path in the CREATE tree is dominated by the success edge of the creating call, so only an object this request created is ever rolled back.",
 	"C04": "(chmod-type) the mode handed to a backend Chmod never takes bits from the FileInfo of a (link-following) Stat.",
 	"C05": "(hit-rebinds) see C02; (dedup-atomic) the lookup of pathHandles that guards the insertion (in Allocate or a helper called inside its critical section) holds the write lock, precedes the insertion and no Unlock lies between them; (unmap-paired) an entry of pathHandles is deleted only in an activation that also deletes the handle it maps to: a live handle whose path mapping is gone makes the next LOOKUP of the path issue a second handle.",
 	"C08": "(swap/stores-on-success, admit-first: borrowed from C16) every successful return of UpdatePolicyOptions has stored the new policy, except behind a comparison that reads every PolicyOptions field; HandleCall consults the policy only after admission; (no-detached-work) see C16.",
 	"C09": "(admit-first, borrowed from C16) the allow-list and secure flag the gate consults are read only after admission under the policy read lock, so a request that waited out a policy update is not judged by the replaced policy.",
+	"C10": "(no-wrap, borrowed from C13, within what ParseAuthSysCredential reaches) a length decoded from the credential body is bounded before it is enlarged in 32 bits, so a wrapping length cannot make an undecodable body decode with client-chosen ids.",
 	"C12": "(chmod-type, borrowed from C04) the type ACCESS keys LOOKUP/DELETE on is the object's own: the mode handed to a backend Chmod never takes type bits from a link-following Stat.",
 	"C13": "(full-read) no bare Read on a stream interface outside forwarding Read methods and counted read loops; (no-wrap) growing arithmetic on a wire-decoded value in a type of 32 bits or fewer is dominated by a bound test of the raw value; (all-fragments) every fragment ReadRecord reads is appended to the returned buffer or is itself the returned value on every path to a successful return.",
 	"C15": "(full-read, no-wrap, all-fragments) shared with C13; (nil-holes, shared with C29) a pointer slice preallocated with a length is filled on every iteration of the loop that indexes it, so no nil element reaches the consumers that dereference every element outside any recover.",
 	"C16": "(swap/stores-on-success) every successful return of UpdatePolicyOptions has stored the new policy, except behind a comparison that reads every PolicyOptions field; (admit-first) in HandleCall every call that reads the policy, directly or through a callee, is dominated by the admission (TryRLock success edge or RLock); (no-detached-work, also under C08) no function running under a request's policy read lock starts a goroutine that reaches the backend unless it waits for it on every path before returning (work that outlives the request escapes the drain); (limiter-fresh) UpdatePolicyOptions does not read the rate limiter it replaces except to compare it with nil or stop it, so no bucket built under the old limits survives the update.",
 	"C17": "(idle-exempt) per-connection state other than lastActivity on which the idle sweep branches is cleared again on every path of the connection loop before the instruction that set it is reached again (a flag left set by one path keeps an idle connection out of the sweep for good).",
+	"C19": "(global-private) every load of RateLimiter.globalLimiter is the receiver of a TokenBucket method or a nil test and the value stored into the field has no other holder, so no narrower stage can charge the global bucket through an alias before the later stages have refused.",
 	"C20": "(join-before-restart) in Resize a call that reaches WaitGroup.Wait precedes the restart on every path on which the pool was running; (received-resolved) in the worker every path from the receive of a task executes it and delivers the result (or finds ResultChan nil) before the worker returns or selects again — a received task is out of the queue, so no drain can resolve it.",
 	"C22": "(ack-on-success) handleWrite's NFS3_OK reply is reachable only from the edge on which the write call returned no error.",
 	"C23": "The advertised wtmax/wtpref are computed from TransferSize only by operations that cannot enlarge it (conversion, selection, constant cap, division, subtraction, shift right, mask); (record-limit) RecordMarkingReader.MaxRecordSize is only ever set to the constant the FSINFO cap is derived from; (count-raw) every comparison in handleWrite that refuses a request on its count tests the count itself or a value that cannot exceed it (a padded or rounded-up length would refuse counts the advertised maximum admits).",
 	"C24": "(atomic-callee) every PolicyOptions field on which UpdatePolicyOptions can refuse is pinned by UpdateExportOptions to the current policy's value or validated there, by the same function, before the first mutation; (in-force) every TuningOptions field New reads to build or configure a component is also read from the updated record in applyTuningSideEffects; (defaults-before-effects) in UpdateTuningOptions the normalisation precedes applyTuningSideEffects.",
 	"C25": "(over-limit-edge) from the edge on which a request quantity exceeds a MaxFileSize-derived bound no size-increasing backend call is reachable (a guard weakened by a second conjunct fails); (swap, borrowed from C16) a limit set at run time only binds if the accepted policy update is stored: every successful return of UpdatePolicyOptions has stored the new policy, except behind a comparison that reads every PolicyOptions field.",
-	"C26": "(entry-size) the stop test's estimate is a linear expression Len + K + pad4(len(name)) whose constant covers the fixed bytes the loop appends per entry plus the bytes appended after the loop minus the status word, all sizes read from the reply trace (or the entry is measured by encoding it); (toosmall-edge) a NFS3ERR_TOOSMALL reply is reachable from the does-not-fit edge of the loop's stop test; (order-preserved) DirCache.Put/Get and ReadDirWithContext never sort or otherwise reorder the listing, so the page served from the backend and the pages served from the cache index the same sequence.",
-	"C27": "(truthful) a SET handler answers TRUE only on paths that passed RegisterService, an UNSET handler answers the result of UnregisterService; (mismatch-range) the PROG_MISMATCH arm of makeReply appends the two version words; (dump-live) every return of the two DUMP handlers has read the mapping table in that call.",
+	"C26": "(entry-skip) in ReadDirWithContext no call that takes the listing's own context has a failure edge that continues the entry loop (a deadline of the whole listing must fail it, not thin it out); (entry-size) the stop test's estimate is a linear expression Len + K + pad4(len(name)) whose constant covers the fixed bytes the loop appends per entry plus the bytes appended after the loop minus the status word, all sizes read from the reply trace (or the entry is measured by encoding it); (toosmall-edge) a NFS3ERR_TOOSMALL reply is reachable from the does-not-fit edge of the loop's stop test; (order-preserved) DirCache.Put/Get and ReadDirWithContext never sort or otherwise reorder the listing, so the page served from the backend and the pages served from the cache index the same sequence.",
+	"C27": "(peer-arg) every call of handleCall hands it the peer address of the connection the bytes came from (a nil address counts as an in-process caller); (truthful) a SET handler answers TRUE only on paths that passed RegisterService, an UNSET handler answers the result of UnregisterService; (mismatch-range) the PROG_MISMATCH arm of makeReply appends the two version words; (dump-live) every return of the two DUMP handlers has read the mapping table in that call.",
 	"C28": "(full-read, all-fragments) shared with C13: record marks are read completely and every fragment reaches the returned record; (advertised-port) every port registered with the portmapper by the server derives from ServerOptions.Port or a constant default.",
-	"C29": "(dedup-atomic, shared with C05) the check-then-insert of FileHandleMap.Allocate happens in one write-locked section; (own-listing) the listing ReadDirWithContext returns originates from a backend Readdir of this activation or from DirCache.Get, never from a result another request left in other shared storage (a coalesced listing can miss an entry whose creation was already acknowledged); (nil-holes, shared with C15) see C15.",
-	"C30": "(floor) additionally every accepting return of Validate lies behind an edge that established MinVersion == 0, MinVersion >= TLS 1.2 or Enabled == false; (rotate-update) UpdatePolicyOptions keeps the previous TLSConfig when the update carries none and otherwise lets the new one take over the previous certificate cell; (no-static-cert) the tls.Config built by BuildConfig serves certificates only through GetCertificate.",
+	"C29": "(read-size) see C01; (dedup-atomic, shared with C05) the check-then-insert of FileHandleMap.Allocate happens in one write-locked section; (own-listing) the listing ReadDirWithContext returns originates from a backend Readdir of this activation or from DirCache.Get, never from a result another request left in other shared storage (a coalesced listing can miss an entry whose creation was already acknowledged); (nil-holes, shared with C15) see C15.",
+	"C30": "(floor) additionally every accepting return of Validate lies behind an edge that established MinVersion == 0, MinVersion >= TLS 1.2 or Enabled == false; (rotate-update) UpdatePolicyOptions keeps the previous TLSConfig when the update carries none and otherwise lets the new one take over the previous certificate cell; (the take-over of the cell may depend only on the presence of the new TLS settings, the previous TLSConfig and its cell, and on what the publication of the policy depends on); (no-static-cert) the tls.Config built by BuildConfig serves certificates only through GetCertificate.",
 }
 
 func init() {
